@@ -175,6 +175,15 @@ class Run:
         call = '%s(%s)' % (cname, ', '.join(args))
         if unit.plain:
             lines.append('  __CPROVER_assume(pre_%s(%s));' % (cname, ', '.join(args)))
+            # known-finding regions of this entry: contract units get `requires !(region)` (auto_spec_text); a plain unit assumes the same
+            # (the region is a predicate over the wrapper's by-value parameters: wrapped in a helper with exactly these parameter names)
+            rgs = getattr(self, 'kf_regions', {}).get(unit.inst, {}).get(cname, [])
+            if rgs and not any(p['ptr'] for p in f['params']):
+                for k, rg in enumerate(rgs):
+                    lines.insert(2, 'static int verif_kf_region_%d(%s) { return (%s) ? 1 : 0; }' % (k, ', '.join(p['decl'].replace('$', p['name']) for p in f['params']), rg))
+                    lines.append('  __CPROVER_assume(!verif_kf_region_%d(%s));' % (k, ', '.join(args)))
+            elif rgs:
+                raise Undecided('plain unit %s: known-finding region on an entry with reference parameters is not supported' % unit.name)
         if f['ret'] != 'void':
             lines.append('  %s = %s;' % (f['ret_decl'].replace('$', 'r_ret'), call))
         else:
@@ -801,6 +810,7 @@ def _main(a, pid, run, seed, t0):
     insts = sorted(set((u.inst, tuple(u.defines)) for u in units))
     findings = [f for f in findings if any(f.get('inst') == i for i, _ in insts)]
     kf_active = []
+    kf_stale = []
     kf_regions_by_inst = {}
     hdrs = {}
     for inst, _ in insts:
@@ -815,6 +825,7 @@ def _main(a, pid, run, seed, t0):
             if kf.get('inst') == inst:
                 regions.setdefault(kf['entry'], []).append(kf['region'])
         autos[inst] = regions
+        run.kf_regions = autos      # plain (bounded) units assume !(region) in their harness, see make_harness
         ap_ = os.path.join(run.work, inst + '.auto.spec')
         open(ap_, 'w').write(auto_spec_text(hdrs[inst], regions))
 
@@ -829,8 +840,24 @@ def _main(a, pid, run, seed, t0):
         if verdict == 'confirmed':
             print('KNOWN-FINDING: property=%s %s region=(%s) %s' % (pid, kf['entry'], kf['region'], kf['what']))
             kf_active.append(kf)
+        elif verdict in ('not-confirmed', 'pre-false'):
+            # the recorded witness no longer fails on this tree: the finding suppresses nothing any more -> proceed WITHOUT its region
+            print('NOTE: known-finding witness for %s (%s) no longer fails on this tree; its region is not excluded in this run' % (kf['entry'], kf['region'][:80]))
+            kf_stale.append(kf)
         else:
-            raise Undecided('known finding witness for %s no longer fails (%s); update known_findings.json' % (kf['entry'], verdict))
+            raise Undecided('known finding witness for %s could not be replayed (%s): %s' % (kf['entry'], verdict, str(out)[-300:]))
+    if kf_stale:
+        for inst, defs in insts:
+            st = [k for k in kf_stale if k['inst'] == inst]
+            if not st: continue
+            regions = {}
+            for kf in findings:
+                if kf.get('inst') == inst and kf not in kf_stale:
+                    regions.setdefault(kf['entry'], []).append(kf['region'])
+            autos[inst] = regions
+            open(os.path.join(run.work, inst + '.auto.spec'), 'w').write(auto_spec_text(hdrs[inst], regions))
+            run.inst_built.pop((inst, tuple(defs)), None)
+            build_one(run, inst, defs)
 
     # ---- discharge (translation validation of every inst runs alongside, as a supporting check)
     tv_results = []
